@@ -253,6 +253,7 @@ Outcome run_case(const json& c, const std::string& prop) {
             }
             Sel sel = e1::dispatch(s, ms, t);
             g_log.clear();
+            eng.keepalive.clear();
             std::vector<const void*> md;
             std::string identity;
             int ret = 0;
